@@ -91,6 +91,8 @@ FormTab == [
   if       |-> Fm("block", 1, TRUE, 0, 0, 0),     ifh2     |-> Fm("block", 2, TRUE, 0, 0, 0),
   for      |-> Fm("block", 1, TRUE, 0, 0, 0),     with     |-> Fm("block", 1, TRUE, 0, 0, 0),
   withh3   |-> Fm("block", 3, TRUE, 0, 0, 0),     else     |-> Fm("cont", 1, TRUE, 0, 0, 0),
+  elif     |-> Fm("cont", 1, TRUE, 0, 0, 0),      try      |-> Fm("block", 1, TRUE, 0, 0, 0),
+  exc      |-> Fm("cont", 1, TRUE, 0, 0, 0),      fin      |-> Fm("cont", 1, TRUE, 0, 0, 0),
   \* statements that create nothing
   expr     |-> Fm("stmt", 1, FALSE, 0, 0, 0),     exprp2   |-> Fm("stmt", 2, FALSE, 0, 0, 0),
   \* string statements (role decided by the context)
@@ -135,8 +137,8 @@ CleanForms == {"def", "defh2", "defdoc1", "defdoc2", "defdocp3", "defh2doc2", "a
                "cls", "clsh3", "clsdoc1", "clsdoc2", "cls1l",
                "asg", "asgp3", "asgs2", "asgs2c0", "asgb2", "ann", "ann0", "annp3", "tup", "chain", "semi",
                "semis2", "sasg", "sasgp3", "imp", "imp2", "from", "from2", "fromp4", "fromb2", "star",
-               "if", "ifh2", "for", "with", "withh3", "else", "expr", "exprp2", "str1", "str2", "strp3",
-               "blank", "cmt", "cmt0"}
+               "if", "ifh2", "for", "with", "withh3", "else",
+               "expr", "exprp2", "str1", "str2", "strp3", "blank", "cmt", "cmt0"}
 MidForms == {"def", "defdoc1", "defdocp3", "def1l2", "init", "cls", "clsh3", "clsdoc2", "asgs2", "asgb2", "ann0",
              "chain", "semis2", "sasgp3", "imp2", "fromb2", "star", "ifh2", "for", "else", "exprp2", "str2",
              "strp3", "blank", "cmt0"}
@@ -149,10 +151,12 @@ DomTab == [
   wide   |-> Dom(CleanForms, IF Deep THEN {"none", "d1", "d1d1", "d2", "d1d2"} ELSE {"none", "d2"},
                  IF Deep THEN HeadsAll ELSE {<<"cmt", 2>>}, 2, {}),
   mid    |-> Dom(MidForms, {"none", "d1d1"}, {<<"cmt", 1>>}, 3, {}),
+  conts  |-> Dom({"if", "elif", "else", "try", "exc", "fin", "asg", "defdoc1", "str1"}, {"none"}, HeadsOne,
+                 IF Deep THEN 5 ELSE 4, {}),
   breaks |-> Dom({"def", "cls", "asg", "str1", "cmt", "ff", "cmtls", "asgnel"}, {"none"}, HeadsOne, 3, {"text"}),
   decos  |-> Dom({"def", "cls", "asg"} \cup (IF Deep THEN {"defdoc1", "clsdoc2", "cmt"} ELSE {}),
                  {"none", "d1", "dp", "prop", "d1prop"}, HeadsOne, 3, {"span"}),
-  leak   |-> [Dom({"if", "for", "else", "asg", "str1"} \cup (IF Deep THEN {"cls", "tup"} ELSE {}), {"none"},
+  leak   |-> [Dom({"if", "for", "else", "try", "fin", "asg", "str1"} \cup (IF Deep THEN {"cls", "elif"} ELSE {}), {"none"},
                   HeadsOne, IF Deep THEN 5 ELSE 4, {"doc"})
                 EXCEPT !.leak = TRUE, !.xcap = 4],
   bom    |-> Dom({"def", "asg", "cls"}, {"none"}, HeadsBom, 2, {"load"}),
@@ -167,7 +171,18 @@ K(it) == FT(it.f).k
 IsFiller(it) == K(it) = "filler"
 IsStmt(it) == ~IsFiller(it)
 IsBlock(it) == K(it) \in {"block", "cont"}
-IfLike(it) == it.f \in {"if", "ifh2", "for"}          \* compound statements that accept `else`
+\* which continuation may follow the block of which compound statement
+ContOK(f, prev) ==
+  CASE f = "else" -> prev.f \in {"if", "ifh2", "for", "elif", "exc"}
+    [] f = "elif" -> prev.f \in {"if", "ifh2", "elif"}
+    [] f = "exc"  -> prev.f \in {"try", "exc"}
+    [] f = "fin"  -> prev.f \in {"try", "exc"}
+    [] OTHER -> TRUE
+\* ast_next crosses from the last statement of c's body into the block of e when e's statements are the
+\* next children of the same AST node: If/For: body, orelse; Try without handlers: body, finalbody
+\* (`elif` is a nested If inside orelse, an `except` clause is an ExceptHandler node: no crossing there)
+Crosses(c, e) == \/ c.f \in {"if", "ifh2", "for", "elif"} /\ e.f = "else"
+                 \/ c.f = "try" /\ e.f = "fin"
 Decorable(f) == FT(f).k \in {"func", "class"} /\ f # "init"
 SelfForms == {"sasg", "sasgp3"}
 
@@ -256,9 +271,9 @@ ImplDocItem(its, i) ==
   LET j == NextStmt(its, i)
       c == ParentOf(its, i)
       e == IF c = 0 THEN 0 ELSE NextStmt(its, c)
-      x == IF e # 0 /\ its[e].f = "else" THEN FirstChild(its, e) ELSE 0
+      x == IF c # 0 /\ e # 0 /\ Crosses(its[c], its[e]) THEN FirstChild(its, e) ELSE 0
   IN IF j # 0 THEN (IF K(its[j]) = "str" THEN j ELSE 0)
-     ELSE IF c # 0 /\ IfLike(its[c]) /\ x # 0 /\ K(its[x]) = "str" THEN x ELSE 0
+     ELSE IF x # 0 /\ K(its[x]) = "str" THEN x ELSE 0
 
 \* ---- object tables ---------------------------------------------------------------------------
 Collected(its, ps, i) ==
@@ -346,13 +361,15 @@ Write(f, dc, d, py, pd) ==
   /\ n <= MaxLen /\ d <= MaxDepth /\ d <= Len(stack)
   \* a block that is being closed must contain a statement
   /\ \A s \in (d + 1)..Len(stack) : IsBlock(items[stack[s].i]) => pl[stack[s].i].has
-  /\ (f = "else") => (Len(stack) > d /\ IfLike(items[stack[d + 1].i]))
+  /\ (F.k = "cont") => (Len(stack) > d /\ ContOK(f, items[stack[d + 1].i]))
+  \* a `try` block can only be closed by its `except` / `finally`
+  /\ \A s \in (d + 1)..Len(stack) : items[stack[s].i].f = "try" => (s = d + 1 /\ f \in {"exc", "fin"})
   /\ (dc # "none") => Decorable(f)
   /\ DT(dc).prop => (F.k = "func" /\ F.body /\ ctx.sk = "class")
   /\ (f = "init") => (ctx.sk = "class" /\ ~\E j \in 1..Len(items) : items[j].f = "init" /\ pl[j].p = ctx.p)
   /\ (f \in SelfForms) => ctx.sk = "init"
   /\ (f = "star") => (ctx.sk = "module" /\ ~\E j \in 1..Len(items) : items[j].f = "star")
-  /\ (F.k = "str" /\ ~AllowLeak) => ~(d > 0 /\ items[stack[d].i].f = "else" /\ ~pl[stack[d].i].has)
+  /\ (F.k = "str" /\ ~AllowLeak) => ~(d > 0 /\ items[stack[d].i].f \in {"else", "fin"} /\ ~pl[stack[d].i].has)
   \* the twin: only objects can be stub-only, and everything below a stub-only object is stub-only
   /\ (~py) => (Twin /\ F.k \in {"func", "class", "attr"})
   /\ (~pd) => (Twin /\ epy /\ F.dst > 0)
@@ -368,7 +385,8 @@ Next == \E f \in Forms, dc \in Decos, d \in 0..MaxDepth, py \in InPy, pd \in BOO
 Spec == Init /\ [][Next]_vars
 
 \* A layout is a file when no open block is still empty.
-Complete == \A s \in 1..Len(stack) : IsBlock(items[stack[s].i]) => pl[stack[s].i].has
+Complete == \A s \in 1..Len(stack) : /\ IsBlock(items[stack[s].i]) => pl[stack[s].i].has
+                                      /\ items[stack[s].i].f # "try"
 
 \* ---- the clauses -----------------------------------------------------------------------------
 Same(r, m) == r.it = m.it /\ r.nm = m.nm
